@@ -239,6 +239,9 @@ def unit_corpus(a):
     for n, t in noisy.corpus_texts():
         for v in range(a["variants"]):
             cases.append({"sub": "layout", "text": t, "label": "corpus:" + n, "choices": [(v * 37 + i * 11 + a["seed"]) % 256 for i in range(24)]})
+    from .c17 import large_sources
+    cases.append({"sub": "layout", "text": large_sources()[0], "label": "large-non-ascii-file", "choices": [1] * 24})
+    cases.append({"sub": "layout", "text": "\ufeffFeature: bom\n Scenario: s\n  Given x\n", "label": "bom", "choices": [2] * 24})
     sweep(stats, cases, check_layout)
     return stats
 
